@@ -135,10 +135,28 @@ fn record(p: &Prog, sols: &Option<Vec<Vec<isize>>>, out: &mut Out) {
         out.stat("ground_answer");
     }
     out.push(p.line_f(fuel), line, fail, nt);
+    // STATE-LEVEL correspondence (see c16.rs): substitution, domain store and constraint store of every state the
+    // body goal delivers, against the model's state
+    let d = Prog { nq: p.nvars, raw: true, take: 0, ..p.clone() };
+    let dump = run_raw_dump(&d, 3_000_000);
+    let t = last_ticks();
+    let fuel = if dump.ends_with("BUDGET") { 1500 } else { 4 * t + 200 };
+    out.stat("state_dumps");
+    if dump.contains("C[") && !dump.contains("C[]") {
+        out.stat("state_dumps_with_pending_constraints");
+    }
+    out.push(d.line_f(fuel).replacen(" raw", " rst", 1), dump, None, true);
 }
 
 pub fn replay(line: &str, out: &mut Out) {
     let p = Prog::parse(line);
+    if line.split_whitespace().nth(4).map(|f| f.starts_with("rst")).unwrap_or(false) {
+        let dump = run_raw_dump(&p, 3_000_000);
+        let t = last_ticks();
+        let fuel = if dump.ends_with("BUDGET") { 1500 } else { 4 * t + 200 };
+        out.push(p.line_f(fuel).replacen(" raw", " rst", 1), dump, None, true);
+        return;
+    }
     let sols = solutions(&p);
     record(&p, &sols, out);
 }
